@@ -11,7 +11,8 @@ use std::sync::Arc;
 use vlib::par::{decode, product};
 use vlib::report::{Acc, SubReport, Violation};
 
-const ALGOS: [u32; 10] = [8, 1, 9, 10, 11, 12, 14, 0, 7, 99];
+/// first item in the low half; a non-zero high half adds a second array item (value + 1): [8,8], [10,8], [8,10]
+const ALGOS: [u32; 13] = [8, 1, 9, 10, 11, 12, 14, 0, 7, 99, 8 | (9 << 16), 10 | (9 << 16), 8 | (11 << 16)];
 
 fn judge(sub: &str, x: &[u8], rank: u64, case: &dyn Fn() -> Value, acc: &mut Acc) -> Option<DigestVerdict> {
     match parse_pkg(x) {
@@ -53,7 +54,7 @@ pub fn sweeps(ctx: &Ctx) -> Vec<Sweep> {
     const ORDERS: [(u8, u8); 6] = [(0, 0), (1, 0), (2, 0), (0, 1), (1, 1), (2, 2)];
     let rad = [bases.len() as u64, 5, 5, 5, 5, ALGOS.len() as u64, ORDERS.len() as u64];
     let n = product(&rad);
-    let rule = format!("{} base packages (2 hand-encoded, built empty, built with a file, 6 assets) × each of MD5 / SHA-1 / SHA-256 / payload SHA-256 ∈ {{absent, correct, wrong in first / middle / last position}} × payload digest algorithm ∈ {:?}; for every third base also with the index entries of either header reversed / rotated (the format does not prescribe an order); oracle: independent recomputation, Ok ⇔ all recorded digests match, mismatch ⇒ DigestMismatchError, algorithm ≠ 8 ⇒ error; non-trivial = reference verdict is not Ok", bases.len(), ALGOS);
+    let rule = format!("{} base packages (2 hand-encoded, built empty, built with a file, 6 assets) × each of MD5 / SHA-1 / SHA-256 / payload SHA-256 ∈ {{absent, correct, wrong in first / middle / last position}} × payload digest algorithm ∈ {:?} (values above 65535 encode two-item arrays [8,8], [10,8], [8,10]: the first item counts); for every third base also with the index entries of either header reversed / rotated (the format does not prescribe an order); oracle: independent recomputation, Ok ⇔ all recorded digests match, mismatch ⇒ DigestMismatchError, algorithm ≠ 8 ⇒ error; non-trivial = reference verdict is not Ok", bases.len(), ALGOS);
     let b2 = bases.clone();
     v.push(Sweep::new("matrix", rule, n, move |i, acc| {
         let bases = &b2;
